@@ -63,13 +63,23 @@ PROBES = ['quiet', 'bad_first_source_good_last', 'bad_last_source', 'bad_middle'
           'role_ending_in_of_defined', 'subprocess_crosscheck', 'errors_unreachable', 'errors_empty',
           'errors_top_not_variable', 'duplicate_offending_triple']
 
+# unusual but legal notation: the concept role written as an ordinary (inverted) relation, a top node
+# without a concept whose relations are all inverted, an empty-concept slot
+EXOTIC_TREES = [
+    ['a', [[':instance-of', ['b', [['/', 'beta']]]]]],
+    ['a', [[':instance-of', ['b', [['/', 'beta']]]], [':ARG0-of', ['c', [['/', 'go-01']]]]]],
+    ['a', [['/', None], [':ARG0-of', ['b', [['/', 'beta']]]]]],
+    ['a', [[':ARG1-of', ['b', [[':ARG0-of', ['c', []]]]]]]],
+]
+
 ERR_RE = re.compile(r'^# ::error-(\d+) (.*)$')
 
 
 def plan(rng, idx, tier):
     if rng.sub('kind').chance(0.2):
         return plan_lifecycle(rng, idx)
-    spec = rng.weighted([(gmodels.AMR, 5), (gmodels.DEFAULT, 1), (gmodels.custom(idx), 3), (gmodels.NOOP, 1)])
+    spec = rng.weighted([(gmodels.AMR, 5), (gmodels.DEFAULT, 1), (gmodels.custom(idx), 3), (gmodels.NOOP, 1),
+                         (gmodels.OWN_CONCEPT_ROLE, 0.5)])
     nsrc = rng.weighted([(1, 3), (2, 4), (3, 3), (4, 1)])
     # balance where the first non-compliant graph sits
     bad_src = set()
@@ -97,6 +107,8 @@ def plan(rng, idx, tier):
                 # the same offending triple written twice (a duplicate in the triple list)
                 _duplicate_bad_branch(tree, spec)
             graphs.append({'tree': tree, 'meta': gtext.gen_metadata(gr.sub('meta'), p_any=0.4)})
+        if r.chance(0.04):
+            graphs.append({'tree': r.pick(EXOTIC_TREES), 'meta': []})
         sources.append({'graphs': graphs})
     srng = rng.sub('style')
     use_stdin = nsrc == 1 and srng.chance(0.5)
